@@ -39,6 +39,22 @@ Section C10.
       = sumf kO kadd (fun m => kmul (Rcoll n m) (Rs (residual_vec kO kadd kmul ksub Mf dtf Qf np Fu Ff Ftau m) x)) 1 Mf.
   Proof. exact (coarse_defect_is_restricted_fine_defect kO kI kadd kmul ksub kopp Rth Mf Mc dtf dtc t0 nodes_c Qf Qc feval_c Rs Rcoll Rs_add Rs_sub Rs_zero). Qed.
 
+  (* (1b) the END POINT is FAS-consistent: when the last node is the right end on both levels (weights = last row of Q)
+          and the last row of the time restriction picks the last fine node, the coarse end point computed by the
+          collocation update right after restriction (u0 + dt sum w f + tau_M) is the space-restricted fine end point,
+          with or without an inherited fine tau, for any number of right-hand-side parts *)
+  Theorem C10_coarse_end_point_is_restricted : forall np (wf wc : nat -> K) Fu Ff Ftau,
+    (forall m, 1 <= m <= Mf -> (Ftau 1 = None <-> Ftau m = None)) ->
+    1 <= Mf -> 1 <= Mc ->
+    (forall j, 1 <= j <= Mf -> wf j = Qf Mf j) -> (forall j, 1 <= j <= Mc -> wc j = Qc Mc j) ->
+    (forall m, 1 <= m <= Mf -> Rcoll Mc m = if Nat.eqb m Mf then kI else kO) ->
+    (forall a b : Vf, (forall y, a y = b y) -> forall x, Rs a x = Rs b x) ->
+    let G := Transfer.restrict kO kadd kmul ksub Mf Mc dtf dtc t0 nodes_c Qf Qc np feval_c Rs Rcoll Fu Ff Ftau in
+    forall x,
+      end_point kO kadd kmul Mc dtc wc np true true (Gu G) (Gf G) (Gtau G) x
+      = Rs (end_point kO kadd kmul Mf dtf wf np true true Fu Ff Ftau) x.
+  Proof. exact (coarse_end_point_is_restricted kO kI kadd kmul ksub kopp Rth Mf Mc dtf dtc t0 nodes_c Qf Qc feval_c Rs Rcoll Rs_add Rs_sub Rs_zero). Qed.
+
   (* (2) prolongation transfers the coarse CORRECTION only *)
   Theorem C10_prolong_zero_correction : forall (G : @coarse K Xc) (Fu : nat -> Vf),
     (forall m, 1 <= m <= Mc -> forall y, Gu G m y = Guold G m y) ->
@@ -93,6 +109,7 @@ Section C10_multilevel.
 End C10_multilevel.
 
 Print Assumptions C10_coarse_defect_is_restricted_fine_defect.
+Print Assumptions C10_coarse_end_point_is_restricted.
 Print Assumptions C10_prolong_zero_correction.
 Print Assumptions C10_two_level_cycle_fixed_point.
 Print Assumptions C10_multilevel_cycle_fixed_point.
